@@ -8,3 +8,8 @@ pub mod types {
 pub mod exhaustive_types {
     include!(concat!(env!("OUT_DIR"), "/conjure-exhaustive/mod.rs"));
 }
+
+#[allow(dead_code, unused_imports, clippy::all)]
+pub mod empty_types {
+    include!(concat!(env!("OUT_DIR"), "/conjure-empty/mod.rs"));
+}
